@@ -19,6 +19,7 @@ import asyncio
 import hashlib
 import json
 import random
+from concurrent.futures import ThreadPoolExecutor
 from typing import Any
 
 from harness import c19_lines as L
@@ -345,15 +346,25 @@ def trace_json(i: int, res: dict[str, Any], with_bytes: bool) -> dict[str, Any]:
 def validate(results: list[dict[str, Any]], rep: Report | None, label: str,
              byte_ids: set[int] | None = None) -> dict[int, tuple[str, str]]:
     verdicts: dict[int, tuple[str, str]] = {}
-    batch: list[dict[str, Any]] = []
+    batches: list[list[dict[str, Any]]] = [[]]
     size = 0
+    for i, r in enumerate(results):
+        wb = (len(r["wire"]) <= 64 and r["wire"] != b"") or (byte_ids is not None and i in byte_ids)
+        t = trace_json(i, r, wb)
+        batches[-1].append(t)
+        size += len(t["ev"]) + (len(t["wire"]) if wb else 0)
+        if len(batches[-1]) >= 2500 or size >= 400_000:
+            batches.append([])
+            size = 0
+    batches = [b for b in batches if b]
 
-    def flush() -> None:
-        nonlocal batch, size
-        if not batch:
-            return
-        res = tlc.validate_batch("Trace_LinesStream", "Trace_LinesStream.cfg", {"traces": batch}, timeout=1800,
-                                 env=TLC_ENV, heap="6g")
+    def one(batch: list[dict[str, Any]]) -> Any:
+        return tlc.validate_batch("Trace_LinesStream", "Trace_LinesStream.cfg", {"traces": batch}, timeout=1800,
+                                  env=TLC_ENV, heap="3g")
+
+    with ThreadPoolExecutor(max_workers=4) as ex:
+        outs = list(ex.map(one, batches))
+    for batch, res in zip(batches, outs):
         if rep is not None:
             rep.add_tlc(res, f"Trace_LinesStream {label} ({len(batch)} traces)")
         for p in res.prints:
@@ -362,16 +373,6 @@ def validate(results: list[dict[str, Any]], rep: Report | None, label: str,
         miss = [t["id"] for t in batch if t["id"] not in verdicts]
         if miss:
             raise Machinery(f"TLC produced no verdict for {len(miss)} traces (first id {miss[0]}):\n{res.out[-2000:]}")
-        batch, size = [], 0
-
-    for i, r in enumerate(results):
-        wb = (len(r["wire"]) <= 64 and r["wire"] != b"") or (byte_ids is not None and i in byte_ids)
-        t = trace_json(i, r, wb)
-        batch.append(t)
-        size += len(t["ev"]) + (len(t["wire"]) if wb else 0)
-        if len(batch) >= 4000 or size >= 600_000:
-            flush()
-    flush()
     return verdicts
 
 
@@ -402,6 +403,7 @@ def replay_behaviour(beh: list[tuple[str, dict[str, Any]]], kind: str) -> tuple[
     for m, ch in zip(sent, chunks):
         rec.send(m, len(ch))
     diffs: list[str] = []
+    eq_plan: Plan = []  # the environment's part of the behaviour in the plan language
 
     async def main() -> None:
         lis = streams.Listener()
@@ -414,11 +416,13 @@ def replay_behaviour(beh: list[tuple[str, dict[str, Any]]], kind: str) -> tuple[
         for act, st in beh[1:]:
             if act in ("Deliver", "DeliverAny"):
                 k = len(prev["stream"]) - len(st["stream"])
+                eq_plan.append(("F", k))
                 rec.feed(k)
                 wire.feed(stream[pos:pos + k])
                 pos += k
                 await streams.settle(4)
             elif act == "PeerClose":
+                eq_plan.append(("E",))
                 rec.close()
                 wire.eof()
                 await streams.settle(4)
@@ -430,6 +434,7 @@ def replay_behaviour(beh: list[tuple[str, dict[str, Any]]], kind: str) -> tuple[
             elif act in ("ReadReturn", "ReadTimeout"):
                 assert task is not None
                 if act == "ReadTimeout":
+                    eq_plan.append(("T",))
                     await asyncio.sleep(prev["rd"]["to"] / 1000.0 + 0.001)
                 await streams.settle(4)
                 if not task.done():
@@ -465,7 +470,7 @@ def replay_behaviour(beh: list[tuple[str, dict[str, Any]]], kind: str) -> tuple[
 
     vloop.run(main(), horizon=3600.0)
     res = {"kind": kind, "ev": rec.ev, "rb": rec.rb, "tab": rec.tab, "wire": stream, "notes": rec.notes,
-           "replies": [], "outcomes": rec.outcomes(), "feat": {"nontrivial": True, "eof": "n/a"},
+           "replies": [], "outcomes": rec.outcomes(), "feat": features(chunks, eq_plan),
            "lens": [len(m) for m in sent],
            "scn": {"fam": "tlc-simulate", "kind": kind, "msgs": [m.hex() for m in sent],
                    "actions": [a for a, _ in beh[1:]]}}
@@ -571,8 +576,10 @@ def self_tests(rep: Report, results: list[dict[str, Any]], verdicts: dict[int, t
         if (verdicts[i][0] == "ok" and r["kind"] in L.KINDS and len(r["wire"]) <= 64
                 and [x[0] for x in o].count("Msg") >= 3 and o[-1][0] == "Empty"
                 and any(x[0] == "Timeout" for x in o) and len({x[1] for x in o if x[0] == "Msg"}) >= 3):
-            k = [j for j, x in enumerate(o) if x[0] == "Timeout"][0]
-            if k + 1 < len(o) and o[k + 1][0] == "Msg" and r["feat"]["wait_partial"]:
+            ks = [j for j, x in enumerate(o) if x[0] == "Timeout"]
+            ms = [j for j, x in enumerate(o) if x[0] == "Msg"]
+            # one timeout, inside the first line; the swap of the last two deliveries is then a pure T1 case
+            if len(ks) == 1 and ks[0] + 1 == ms[0] and r["feat"]["wait_partial"]:
                 pick = r
                 break
     if pick is None:
@@ -585,9 +592,9 @@ def self_tests(rep: Report, results: list[dict[str, Any]], verdicts: dict[int, t
     msg_idx = [j for j in ends if pick["ev"][j]["r"] == "Msg"]
     tmo_idx = [j for j in ends if pick["ev"][j]["r"] == "Timeout"][0]
     after_tmo = [j for j in msg_idx if j > tmo_idx][0]
-    c1 = clone()  # two deliveries swapped
-    c1["ev"][msg_idx[0]]["c"], c1["ev"][msg_idx[1]]["c"] = c1["ev"][msg_idx[1]]["c"], c1["ev"][msg_idx[0]]["c"]
-    c1["rb"][0], c1["rb"][1] = c1["rb"][1], c1["rb"][0]
+    c1 = clone()  # the last two deliveries swapped
+    c1["ev"][msg_idx[-1]]["c"], c1["ev"][msg_idx[-2]]["c"] = c1["ev"][msg_idx[-2]]["c"], c1["ev"][msg_idx[-1]]["c"]
+    c1["rb"][-1], c1["rb"][-2] = c1["rb"][-2], c1["rb"][-1]
     c2 = clone()  # the read after the timeout returns something else (timeout consumed data)
     c2["ev"][after_tmo]["c"] = 0
     c2["rb"][msg_idx.index(after_tmo)] = b"\xee\xee\xee\xee\xee"
@@ -650,17 +657,27 @@ def run(tier: str, seed: int) -> Report:
         "where the statement is silent the contract accepts (counted under 'unspecified'): an error instead of an empty "
         "read when the stream ends inside a message, a timeout although the message became complete during the wait",
     ]
-    # ---- 1. model checking
+    # ---- 1. model checking (the five TLC runs are independent: run them side by side)
+    jobs = {
+        "fr_lines": lambda: tlc.run_tlc("MC_Framing", "MC_Framing_lines.cfg", timeout=900, workers=4),
+        "fr_prefix": lambda: tlc.run_tlc("MC_Framing", "MC_Framing_prefix.cfg", timeout=900, workers=4),
+        "fr_greedy": lambda: tlc.run_tlc("MC_Framing", "MC_Framing_greedy.cfg", timeout=300, workers=2),
+        "ls": lambda: tlc.run_tlc("MC_LinesStream", "MC_LinesStream.cfg", timeout=1800, coverage=True, workers=4),
+        "ls_dev": lambda: tlc.run_tlc("MC_LinesStream", "MC_LinesStream_devS14.cfg", timeout=600, workers=2),
+    }
+    with ThreadPoolExecutor(max_workers=5) as ex:
+        futs = {k: ex.submit(f) for k, f in jobs.items()}
+        mc = {k: f.result() for k, f in futs.items()}
     for cfg in ("lines", "prefix"):
-        res = tlc.run_tlc("MC_Framing", f"MC_Framing_{cfg}.cfg", timeout=900)
+        res = mc[f"fr_{cfg}"]
         rep.add_tlc(res, f"MC_Framing_{cfg}")
         if not res.ok:
             rep.violate(f"design/{res.violated}", {"where": "Framing", "cfg": cfg}, {"cex": res.cex[-4:]})
-    res = tlc.run_tlc("MC_Framing", "MC_Framing_greedy.cfg", timeout=300)
+    res = mc["fr_greedy"]
     rep.add_tlc(res, "MC_Framing_greedy (negative control)")
     if res.violated != "Independent":
         raise Machinery(f"negative control MC_Framing_greedy did not violate Independent (got {res.violated})")
-    res = tlc.run_tlc("MC_LinesStream", "MC_LinesStream.cfg", timeout=1800, coverage=True)
+    res = mc["ls"]
     rep.add_tlc(res, "MC_LinesStream")
     if not res.ok:
         rep.violate(f"design/{res.violated}", {"where": "LinesStream design layer"},
@@ -669,11 +686,14 @@ def run(tier: str, seed: int) -> Report:
     if any(v == 0 for v in acts.values()):
         raise Machinery(f"vacuous model: design actions never taken: {acts}")
     rep.extra["design_action_coverage"] = acts
-    res = tlc.run_tlc("MC_LinesStream", "MC_LinesStream_devS14.cfg", timeout=600)
+    res = mc["ls_dev"]
     rep.add_tlc(res, "MC_LinesStream_devS14 (negative control)")
     if res.violated != "T3_EndOfStreamDistinct":
         raise Machinery(f"negative control Dev_S14_PartialLineAtEof did not violate T3 (got {res.violated})")
 
+    import time as _time
+    stage_t = {"tlc_mc": round(_time.time() - rep.t0, 1)}
+    _t = _time.time()
     # ---- 2. enumerate real executions
     scns: list[dict[str, Any]] = []
     for kind in L.KINDS:
@@ -695,6 +715,7 @@ def run(tier: str, seed: int) -> Report:
         rep.extra["families"][f] = rep.extra["families"].get(f, 0) + 1
     rep.extra["short_scenarios"] = n_short
 
+    stage_t["executions"] = round(_time.time() - _t, 1); _t = _time.time()
     # ---- 3. spec -> code
     nsim = 150 if tier == "quick" else 1500
     _sres, behs = tlc.simulate_behaviours("MC_LinesStream", "MC_LinesStream_sim.cfg", num=nsim, depth=40,
@@ -710,8 +731,10 @@ def run(tier: str, seed: int) -> Report:
         results.append(r)
     rep.extra["spec_to_code_replayed"] = replayed
 
+    stage_t["spec_to_code"] = round(_time.time() - _t, 1); _t = _time.time()
     # ---- 4. real sockets (fakes validated against the kernel)
     results += real_socket_stage(rep, tier, seed)
+    stage_t["real_sockets"] = round(_time.time() - _t, 1); _t = _time.time()
 
     # ---- 5. code -> spec: TLC validates every execution
     byte_ids = set()
@@ -720,6 +743,8 @@ def run(tier: str, seed: int) -> Report:
     byte_ids.update(small_big[:4])
     byte_ids.update([i for i in big if 20_000 < len(results[i]["wire"]) < 120_000][:2])
     verdicts = validate(results, rep, "batch", byte_ids)
+    stage_t["tlc_validation"] = round(_time.time() - _t, 1)
+    rep.extra["stage_seconds"] = stage_t
     rep.traces = len(results)
     rep.evaluations = len(results)
     unspecified = {"error_at_end_of_stream_inside_message": 0, "hang_on_open_stream": 0}
